@@ -461,4 +461,7 @@ def run(ck, tier):
     _imp(ck, 'C10', 'R16', ('R7',), 'the server then answers requests for units it does not host (from a private default context) instead of staying silent / answering with a gateway exception')
     from .c17 import r9_read_size_covers_an_adu
     ck.guard(r9_read_size_covers_an_adu, ck, cx, 'R17')
+    from ..share import import_findings as _imp3
+    ck.rule('R19', 'the RTU frame length oracle sizes every request correctly up to the 256-byte ADU limit (shared with C03 R3)')
+    _imp3(ck, 'C03', 'R19', ('R3',), 'a maximum-size request is never answered', detail_prefixes=('rtuFrameSize-shape', 'size-from-buffered-length', 'custom-size-override', 'fifo-size', 'mei-size-shape', 'base-size-shape'))
     return cx.idx
